@@ -190,7 +190,9 @@ func (b *bkState) settle() bool {
 	for time.Now().Before(deadline) {
 		idle := true
 		for _, cl := range b.s.Clients.GetAll() {
-			if !cl.VerifOutboundIdle() {
+			// a stopped client's write loop has ended: what is left in its queue (WriteLoop's select may
+			// take the Done case while packets are still queued) will never be written and is not waited for
+			if !cl.Closed() && !cl.VerifOutboundIdle() {
 				idle = false
 			}
 		}
